@@ -32,6 +32,8 @@ def number_kinds(r):
     return [
         ("int", base), ("float", fl), ("bool", True), ("np.float64", np.float64(fl)), ("np.float32", np.float32(r.choice([2.0, 0.5, 1.5]))),
         ("np.int64", np.int64(base)), ("np.int32", np.int32(base)), ("negative float", -fl), ("float one", 1.0),
+        # the neutral / absorbing elements are where shortcuts hide
+        ("int zero", 0), ("float zero", 0.0), ("np.float64 zero", np.float64(0.0)), ("np.int32 zero", np.int32(0)), ("int one", 1), ("int minus one", -1), ("False", False),
     ]  # fmt: skip
 
 
@@ -114,7 +116,7 @@ def run(ctx):
     probe.reach([Scalar._DoOperation, Array._DoOperation])
     ctx.rule = (
         "x in {Scalar, Array, FixedArray} x {simple, derived (random trees), empty quantity} x {list, tuple, ndarray, lengths 0..4} ; "
-        "k in {int, float, bool, np.float64, np.float32, np.int64, np.int32, negative, 1.0} and for arrays float64/int64 ndarrays of x's length; "
+        "k in {int, float, bool, np.float64, np.float32, np.int64, np.int32, negative, 0, 0.0, numpy zeros, 1, -1, False} and for arrays float64/int64 ndarrays of x's length; "
         "all ten operator forms in both operand orders: result is an instance of x's class, quantity = x's (reciprocal dimension for k/x, k//x), "
         "values == the Python/numpy operation applied to the stored value(s) exactly. distinct non-trivial = (class, container, length, quantity kind, k kind)"
     )
